@@ -56,12 +56,14 @@ def run(chk):
 
 META = {
     "category": "other",
-    "engine": "LABEL (symbolic interpreter on symbolic trees)",
-    "technique": "abstract interpretation of the builder / label producers / constructors on symbolic trees and symbolic term tables (column identities, axis identities); whole-function interpretation of _decompose_graph on exact r x 1 tables (root case); finite enumeration of list lengths for the constructors",
+    "engine": "LABEL (symbolic interpreter on symbolic trees) + whole-function interpretation on exact data",
+    "technique": "abstract interpretation of the builder / label producers / constructors on symbolic trees and symbolic term tables (column identities, axis identities); whole-function interpretation of _decompose_graph on exact r x 1 tables (root case) and of construct_symbolic_ttno on small trees x exact term tables; finite enumeration of list lengths for the constructors",
     "text": "Decides, for the enumerated symbolic topologies (arity 0-3, several basis sets per node, nested sub-trees), that the builder's "
             "column bookkeeping, the numeric axis layout, the operator's label schema, the traversal pairing and todense are mutually "
-            "consistent, and (bounded, list length <= N) that tree constructors neither drop nor duplicate a basis set. Exactness of the "
-            "resulting operator additionally needs the one-site decomposition (C01) and is not decided numerically.",
+            "consistent, and (bounded, list length <= N) that tree constructors neither drop nor duplicate a basis set; and, bounded, that the symbolic tree operator is exact and "
+            "topology independent: construct_symbolic_ttno interpreted as a whole (graph algorithms) on eight small trees (chain, root in the middle, binary, ternary with a two-set "
+            "node, dummy inner node, dummy root, two-set root, short and long branch) x exact term tables expands to the term table with its coefficients on every one of them. Not "
+            "decided: exactness for all trees and tables, the QR algorithm inside the whole builder, numeric conversion beyond its layout.",
     "note": "Symbolic trees are a finite set of shapes chosen to cover every branch of the code (leaf / inner / root, first / middle / last child, 1-3 basis sets); "
             "the code under analysis branches only on these shape attributes.",
     "design_ref": "DESIGN.md 3.3, 4 (C02); as built: 9.1, 9.3, 9.8",
